@@ -23,6 +23,10 @@
     the name checker up to [n] bytes, those bytes are the wire form of labels [ls], and the three record lists afterwards are
     the old ones with exactly that record's owner labels replaced by [ls] (growing, shrinking or equal length), counts and
     flag word as they were, [dinv] kept.
+    Deletion through a cursor on a packet as the parser returned it, compressed or not (C09_delete_on_parsed_packet): the
+    decompress-and-translate prologue lands on the same record of the pointer-free packet (C08_cursor_decompress), the deletion
+    then removes exactly that record: the section afterwards is the old one without it, the other sections as they were (records
+    compared without their positions, names as label lists).
     The address setter (C09_set_ip_on_decompressed): a successful set_rr_ip means the record is an A record given 4 bytes or an
     AAAA record given 16, and the reading afterwards is the old one with exactly that record's data replaced by them.
     For the other operations the refinement to the abstract message operations is decided each
@@ -38,7 +42,7 @@
     second record in the implementation (known finding data-pointer). *)
 From DV Require Import Model.Base Model.NameCheck Model.Parser Model.Header Model.Readers Model.Uncompress
   Model.Mutate Spec.NameSpec Spec.PacketSpec Spec.RecordSpec Proofs.Hoare Proofs.HeaderBits Proofs.InsertLemmas
-  Spec.PlainSpec Proofs.WalkValues Proofs.SetTtl Proofs.WalkSkip Proofs.PlainWf Proofs.InsertSpec Proofs.SetTtlInv Proofs.DeleteInv Proofs.SetNameInv Proofs.ReplaceInv.
+  Spec.PlainSpec Proofs.WalkValues Proofs.SetTtl Proofs.WalkSkip Proofs.PlainWf Proofs.InsertSpec Proofs.SetTtlInv Proofs.DeleteInv Proofs.SetNameInv Proofs.ReplaceInv Proofs.WalkInv Proofs.DecompressFirst.
 From Coq Require Import Lia.
 
 Theorem C09_insert_appends : forall sec rr v it s',
@@ -276,3 +280,13 @@ Print Assumptions C09_set_ip_on_decompressed.
 
 Example C09_ip_type_len_means : forall t n, ip_type_len t n <-> (t = TYPE_A /\ n = 4) \/ (t = TYPE_AAAA /\ n = 16).
 Proof. intros. unfold ip_type_len. tauto. Qed.
+
+Theorem C09_delete_on_parsed_packet : forall p v qls qt lA lN lR sec l1 r x l2 n s',
+  bytes_ok p -> parse p = Ok v -> reading p qls qt lA lN lR -> sec = SAnswer \/ sec = SNameServers \/ sec = SAdditional ->
+  sec_list sec lA lN lR = l1 ++ (r, x) :: l2 -> is_opt r = false ->
+  m_delete (v, cur_on sec r n) = (s', Ok tt) ->
+  dinv (fst s') /\ it_offset (snd s') = None /\ it_section (snd s') = sec /\
+  exists lA' lN' lR', reading (pp_packet (fst s')) qls qt lA' lN' lR' /\
+    map unpl (sec_list sec lA' lN' lR') = map unpl l1 ++ map unpl l2 /\ other_sections_kept sec lA lN lR lA' lN' lR'.
+Proof. exact delete_on_fresh_parse. Qed.
+Print Assumptions C09_delete_on_parsed_packet.
